@@ -50,3 +50,33 @@ func VerifC04ParseErrors() {
 	nd.Assert(perr != nil, "bad-source-rejected")
 	nd.Reach("C04.parseerrors")
 }
+
+// VerifC04Include: a render that includes a file (from disk or from the cache) writes
+// nothing shared either — in particular not the engine's source cache.
+func VerifC04Include() {
+	root := nd.TempRoot()
+	e := NewEngine()
+	inc := root + "/inc.html"
+	switch nd.Choice(3) {
+	case 0:
+		nd.SetFile(inc, "I{{ n }}", 0)
+	case 1:
+		_, err := e.ParseTemplateAndCache([]byte("C{{ n }}"), inc, 1)
+		nd.Assert(err == nil, "cache-parse")
+	case 2:
+		nd.SetFile(inc, "I{{ n }}", 0)
+		_, err := e.ParseTemplateAndCache([]byte("C{{ n }}"), inc, 1)
+		nd.Assert(err == nil, "cache-parse")
+	}
+	tpl, perr := e.ParseTemplateLocation([]byte("<{% include 'inc.html' %}>{% include 'inc.html' %}"), root+"/main.html", 1)
+	nd.Assert(perr == nil, "includer-parses")
+	if perr != nil {
+		return
+	}
+	b := Bindings{"n": nd.IntIn(0, 9)}
+	nd.BeginRender()
+	_, err := tpl.RenderString(b)
+	nd.EndRender()
+	nd.Assert(err == nil, "include-renders")
+	nd.Reach("C04.include")
+}
